@@ -95,6 +95,25 @@ BrokenInvariants(s) ==
             [] n = "ReceiveMaximum" -> ReceiveMaximumIn(s)
             [] OTHER -> NoStrandedWorkIn(s)}
 
+\* The structural invariants are also evaluated on the state the code was OBSERVED in, whether or not the specification
+\* can follow the code there: a change that corrupts the engine's tables is a breach of the property, not only a drift.
+KindName(k) == CASE k = 1 -> "connect" [] k = 3 -> "pub" [] k = 4 -> "puback" [] k = 5 -> "pubrec" [] k = 7 -> "pubcomp"
+                 [] k = 8 -> "sub" [] k = 10 -> "unsub" [] k = 12 -> "pingreq" [] OTHER -> "disconnect"
+PairsToFn(q) == [p \in {q[i][1] : i \in 1..Len(q)} |-> (CHOOSE x \in SeqToSet(q) : x[1] = p)[2]]
+ObsState(e) ==
+    [ops |-> [id \in {e.ops[i][1] : i \in 1..Len(e.ops)} |->
+                 LET t == CHOOSE x \in SeqToSet(e.ops) : x[1] = id
+                 IN [kind |-> KindName(t[2]), qos |-> t[3], dup |-> t[4] = 1, pid |-> t[5], pubrel |-> t[6] = 1, user |-> t[7] = 1]],
+     userQ |-> e.userQ, resubQ |-> e.resubQ, hpQ |-> e.hpQ, cur |-> e.cur, pwcOps |-> e.pwcOps,
+     alloc |-> PairsToFn(e.alloc), pendPub |-> PairsToFn(e.pendPub), pendNon |-> PairsToFn(e.pendNon)]
+BrokenObserved(e) ==
+    LET s == ObsState(e) IN
+    {n \in {"UserOpsTracked", "NoLiveIdTwice", "AllocConsistent", "PendingBound"} :
+        ~ CASE n = "UserOpsTracked" -> UserOpsTrackedIn(s)
+            [] n = "NoLiveIdTwice" -> NoLiveIdTwiceIn(s)
+            [] n = "AllocConsistent" -> AllocConsistentIn(s)
+            [] OTHER -> PendingBoundIn(s)}
+
 ----------------------------------------------------------------------------------------------------
 \* predictions of a call, as comparable tuples
 
@@ -139,7 +158,11 @@ Step(e) ==
     IF e.ev = "Cfg" THEN
         /\ es' = InitState(CfgOf(e)) /\ pend' = <<>> /\ skip' = FALSE
         /\ out' = [out EXCEPT !.runs = @ + 1]
-    ELSE IF skip THEN UNCHANGED <<es, pend, skip, out>>
+    ELSE IF skip THEN
+        \* the run is no longer replayed, but the states the code passes through are still judged (one report per run)
+        IF e.ev = "St" /\ (\A i \in 1..Len(out.inv) : out.inv[i].run # e.run) /\ BrokenObserved(e) # {}
+        THEN /\ out' = [out EXCEPT !.inv = Append(@, [run |-> e.run, seq |-> e.seq, broken |-> BrokenObserved(e)])] /\ UNCHANGED <<es, pend, skip>>
+        ELSE UNCHANGED <<es, pend, skip, out>>
     ELSE IF IsCall(e) THEN
         IF pend # <<>> THEN
             /\ out' = Drift(e, "predicted-not-observed", ToString(pend)) /\ skip' = TRUE /\ UNCHANGED <<es, pend>>
@@ -162,7 +185,9 @@ Step(e) ==
         ELSE /\ out' = Drift(e, "observed-not-predicted", ToString(Seen(e))) /\ skip' = TRUE /\ UNCHANGED <<es, pend>>
     ELSE IF e.ev = "St" THEN
         LET mm == Mismatch(es, e) IN
-        IF mm # {} THEN /\ out' = Drift(e, "state", ToString(mm)) /\ skip' = TRUE /\ UNCHANGED <<es, pend>>
+        IF mm # {} THEN /\ out' = LET bo == BrokenObserved(e) IN
+                                   [Drift(e, "state", ToString(mm)) EXCEPT !.inv = IF bo = {} THEN @ ELSE Append(@, [run |-> e.run, seq |-> e.seq, broken |-> bo])]
+                        /\ skip' = TRUE /\ UNCHANGED <<es, pend>>
         ELSE LET bi == BrokenInvariants(es) IN
              /\ out' = [out EXCEPT !.states = @ + 1, !.wit = @ \cup {<<"St", w>> : w \in StateWitnesses(es)},
                                    !.inv = IF bi = {} THEN @ ELSE Append(@, [run |-> e.run, seq |-> e.seq, broken |-> bi])]
